@@ -351,17 +351,25 @@ Proof.
   - apply IH. apply sim_pop_tag. exact HS.
 Qed.
 
+Lemma all_lt_removelast n l : all_lt n l -> all_lt n (removelast l).
+Proof.
+  unfold all_lt. rewrite !Forall_forall. intros H x Hx. apply H.
+  induction l as [|a l IH]; [destruct Hx|]. cbn [removelast] in Hx. destruct l as [|b l]; [destruct Hx|].
+  destruct Hx as [<-|Hx]; [now left | right; apply IH; [intros; apply H; now right | exact Hx]].
+Qed.
+
 Lemma sim_is_open b1 b2 name prefix : sim b1 b2 -> is_open b1 name prefix = is_open b2 name prefix.
 Proof.
-  intros HS. unfold is_open. rewrite <- (sim_stack _ _ HS). pose proof (sim_stack_lt _ _ HS) as Hl.
-  induction (b_stack b1) as [|t r IH]; [reflexivity|]. cbn [existsb].
+  intros HS. unfold is_open. rewrite <- (sim_stack _ _ HS).
+  pose proof (all_lt_removelast _ _ (sim_stack_lt _ _ HS)) as Hl.
+  induction (removelast (b_stack b1)) as [|t r IH]; [reflexivity|]. cbn [existsb].
   destruct (all_lt_tl _ _ _ Hl) as [Lt Lr].
   destruct (sim_name_of b1 b2 t HS Lt) as [E1 E2]. rewrite <- E1, <- E2, (IH Lr). reflexivity.
 Qed.
 
 Lemma sim_pop_to_tag cfg b1 b2 name prefix : sim b1 b2 -> sim (pop_to_tag cfg b1 name prefix) (pop_to_tag cfg b2 name prefix).
 Proof.
-  intros HS. unfold pop_to_tag. destruct (str_eqb name (c_root cfg)); [exact HS|].
+  intros HS. unfold pop_to_tag.
   unfold counter_positive, cget. rewrite <- (sim_counter _ _ HS), <- (sim_is_open b1 b2 name prefix HS).
   destruct (_ && negb (is_open b1 name prefix)); [exact HS|].
   rewrite <- (sim_stack _ _ HS). apply sim_pop_loop. exact HS.
@@ -388,10 +396,9 @@ Qed.
 Lemma sim_pop_all cfg : forall k b1 b2, sim b1 b2 -> sim (pop_all k cfg b1) (pop_all k cfg b2).
 Proof.
   induction k as [|k IH]; intros b1 b2 HS; cbn [pop_all]; [exact HS|].
-  rewrite <- (sim_cur _ _ HS). pose proof (sim_cur_lt _ _ HS) as Hl.
-  destruct (b_cur b1) as [c|]; [|exact HS]. cbn in Hl.
-  destruct (sim_name_of b1 b2 c HS Hl) as [E1 _]. rewrite <- E1.
-  destruct (str_eqb (name_of b1 c) (c_root cfg)); [exact HS|]. apply IH. now apply sim_pop_tag.
+  rewrite <- (sim_cur _ _ HS).
+  destruct (b_cur b1) as [c|]; [|exact HS].
+  destruct (Nat.eqb c 0); [exact HS|]. apply IH. now apply sim_pop_tag.
 Qed.
 
 Lemma sim_finish cfg b1 b2 : sim b1 b2 -> sim (finish cfg b1) (finish cfg b2).
